@@ -321,6 +321,8 @@ class Env:
                 if types:
                     args.append(tarr)
                 ctx.add_resource(*args, **kw)
+                if types and isinstance(tarr, list):
+                    tarr.clear()
                 return {"k": "OK"}
             if k == "AddFactory":
                 facs = self.__dict__.setdefault("facs", {})
@@ -338,6 +340,9 @@ class Env:
                     kw["types"] = ty_obj(types[0]) if (op.get("single") and len(types) == 1) \
                         else [ty_obj(t) for t in types]
                 ctx.add_resource_factory(f, op["name"], **kw)
+                if isinstance(kw.get("types"), list):
+                    # the caller's list is the caller's: it is emptied (and reused) right after the call
+                    kw["types"].clear()
                 return {"k": "OK"}
             if k == "GetNowait":
                 self.current_ctx = h.idx
